@@ -4,7 +4,7 @@ import collections
 import random
 import weakref
 
-from .. import core, gen, attach
+from .. import core, gen, attach, faults
 from ..core import COL
 from ..shadow import Shadow, bits
 
@@ -503,6 +503,63 @@ def editing_calls(ctx, lat, rng, steps=3):
     COL.counters['returned_containers_edited'] += steps
 
 
+def interrupted_calls(concepts, ctx, lat, rng, steps=3, first_access=False):
+    """Read-only queries that are cut short: an exception (RecursionError, MemoryError,
+    KeyboardInterrupt) surfaces at the n-th library line of the call (``faults.interrupted``), or the
+    call is made with only a few frames of stack left (``faults.low_stack``).  The aborted call is not
+    judged; a context and a lattice are immutable, so everything asked afterwards is judged as usual
+    (and some of the calls made with little stack left complete - those are judged, too).
+    Calls that construct contexts are left out (their registries are not ours to interrupt).
+    Never raises."""
+    import pickle
+    alg = concepts.algorithms
+    objs, props = list(ctx.objects), list(ctx.properties)
+    members = None
+    if lat is not None and lat is not RAISED:
+        try:
+            members = list(lat)
+        except Exception:
+            members = None
+    for _ in range(steps):
+        so = rng.sample(objs, rng.randint(0, min(len(objs), 4)))
+        sp = rng.sample(props, rng.randint(0, min(len(props), 4)))
+        thunks = [lambda: ctx.neighbors(so), lambda: ctx.intension(so), lambda: ctx.extension(sp),
+                  lambda: ctx[so or objs[:1]], lambda: str(ctx.relations(include_unary=True)),
+                  lambda: ctx.todict(ignore_lattice=None), lambda: ctx.tostring(),
+                  lambda: alg.get_concepts(ctx), lambda: list(alg.iterconcepts(ctx)), lambda: list(alg.fcbo_dual(ctx)),
+                  lambda: list(concepts.lattices.Lattice(ctx))]
+        if first_access:
+            thunks = [lambda: ctx.lattice, lambda: ctx.lattice, lambda: list(concepts.lattices.Lattice(ctx))]
+        elif members:
+            a, b, c = (rng.choice(members) for _ in range(3))
+            ms = [a, b, c]
+            thunks += [lambda: list(a.upset()), lambda: list(b.downset()), lambda: list(lat.upset_union(ms)),
+                       lambda: list(lat.downset_union(ms)), lambda: (a | b, a & b), lambda: (lat.join(ms), lat.meet(ms)),
+                       lambda: (a <= b, a < b, a.orthogonal_to(b), a.complement_of(b), a.subcontrary_with(b)),
+                       lambda: (lat[so or objs[:1]], lat(sp)), lambda: c.minimal(),
+                       lambda: list(c.attributes()) if len(c.intent) <= 9 else None,
+                       lambda: lat.graphviz() if len(members) <= 150 else None, lambda: str(lat) if len(members) <= 150 else None,
+                       lambda: pickle.dumps((ctx, lat)) if len(members) <= 150 else None,
+                       lambda: (c.atoms, c.objects, c.properties, str(c)), lambda: list(lat)]
+        fn = rng.choice(thunks)
+        try:
+            if rng.random() < .7:
+                n = rng.choice([1, 2, 3, 4, 6, 9, 14, 22, 35, 60, 100, 170, 300, 600])
+                exc = rng.choice([RecursionError, RecursionError, MemoryError, KeyboardInterrupt])
+                faults.interrupted(fn, n, exc)
+            else:
+                faults.low_stack(fn, rng.randint(1, 45))
+            if rng.random() < .5:
+                fn()                    # the same question again, with nothing in the way
+        except (core.CaseTimeout, core.CaseTooLarge):
+            raise
+        except BaseException as e:
+            if isinstance(e, (SystemExit, GeneratorExit)):
+                raise
+            COL.counters['interrupted_calls_ended_otherwise'] += 1
+    COL.counters['interrupted_call_attempts'] += steps
+
+
 def get_lattice(ctx):
     """``ctx.lattice`` (tied to ``ctx``) or RAISED.  For one context in three the first access comes
     after a few calls that fail (see ``failing_calls``)."""
@@ -514,12 +571,17 @@ def get_lattice(ctx):
             key = zlib.crc32(repr((ctx.shape, ctx.objects[:2], ctx.properties[:2], ctx.bools[:2])).encode())
         except Exception:
             key = 1
-        if key % 3 == 0:
-            failing_calls(sys.modules[type(ctx).__module__.split('.')[0]], ctx, None, random.Random(key))
+        lib = sys.modules.get('concepts')
+        if key % 4 == 0:
+            failing_calls(lib, ctx, None, random.Random(key))
             COL.counters['first_lattice_access_after_failed_calls'] += 1
-        elif key % 3 == 1:
+        elif key % 4 == 1:
             editing_calls(ctx, None, random.Random(key), 5)
             COL.counters['first_lattice_access_after_edits_of_returned_containers'] += 1
+        elif key % 4 == 2 and len(ctx.objects) * len(ctx.properties) <= 400:
+            interrupted_calls(lib, ctx, None, random.Random(key), 3, first_access=True)
+            interrupted_calls(lib, ctx, None, random.Random(key + 1), 2)
+            COL.counters['first_lattice_access_after_interrupted_attempts'] += 1
     lat = call(lambda: ctx.lattice)
     if lat is not RAISED:
         tie(lat, ctx)
@@ -635,11 +697,17 @@ def recording(gen_obj, judge, where):
         except core.CaseTimeout:
             raise
         except BaseException as e:
-            if e is not thrown_in:
+            if isinstance(e, faults.Injected) or (COL.low_limit and isinstance(e, RecursionError)):
+                COL.counters['calls_cut_short_not_judged'] += 1      # judged as a prefix only
+            elif e is not thrown_in:
                 exc = e
             raise
         finally:
             COL.depth += 1
+            low_now = COL.low_limit
+            if low_now:
+                import sys as _sys
+                _sys.setrecursionlimit(COL.high_limit)
             try:
                 judge(items, complete, exc)
             except core.CaseTooLarge:
@@ -650,6 +718,8 @@ def recording(gen_obj, judge, where):
                 COL.harness_error(where + '.judge', e)
             finally:
                 COL.depth -= 1
+                if low_now and COL.low_limit:
+                    _sys.setrecursionlimit(COL.low_limit)
     return proxy()
 
 
@@ -719,14 +789,57 @@ def registry_history(concepts, case, rng, queries):
 # lattice.  The property being checked judges its own calls; all the others are there to disturb
 # shared state (memo tables, caches, class-level closures) between those calls.
 
+class Reentrant:
+    """A re-iterable collection whose iteration itself uses the library: before it hands out an item it
+    calls ``poke(item)`` (a look-up / a traversal / another n-ary call on the same context or lattice) -
+    what a caller's generator pipeline does when it filters with the object it is about to query.
+    The outer call must be unaffected."""
+
+    def __init__(self, items, poke):
+        self.items, self.poke = list(items), poke
+
+    def __iter__(self):
+        for x in self.items:
+            try:
+                self.poke(x)
+            except (core.CaseTimeout, core.CaseTooLarge):
+                raise
+            except Exception:
+                COL.counters['reentrant_inner_call_raised'] += 1
+            COL.counters['reentrant_items_handed_out'] += 1
+            yield x
+
+    def __len__(self):
+        return len(self.items)
+
+
+def reentrant_labels(labels, ctx):
+    objs = set(ctx.objects)
+
+    def poke(x):
+        if x in objs:
+            ctx[(x,)], ctx.intension([x])
+        else:
+            ctx[(x,)], ctx.extension([x])
+    return Reentrant(labels, poke)
+
+
+def reentrant_concepts(members, lat):
+    def poke(c):
+        lat.join([c, c]), lat.meet(iter([c])), next(c.upset(), None), next(lat.downset_union([c]), None), c | c, lat[c.extent]
+    return Reentrant(members, poke)
+
+
 class StrLabel(str):
     """A str subclass instance: equal to and hashing like the plain label."""
 
 
-def argform(labels, rng, iterable_ok=True):
+def argform(labels, rng, iterable_ok=True, ctx=None):
     """One of many equivalent representations of a collection of labels."""
     labels = list(labels)
     k = rng.randrange(10 if iterable_ok else 8)
+    if ctx is not None and rng.random() < .12:
+        return reentrant_labels(labels, ctx)
     if k == 0:
         return tuple(labels)
     if k == 1:
@@ -806,16 +919,19 @@ def interference(concepts, ctx, lat, rng, steps=20):
             if k in (5, 6, 19) and rng.random() < .5:
                 editing_calls(ctx, lat if members else None, rng, 1)
                 continue
+            if k in (7, 8, 18) and rng.random() < .5:
+                interrupted_calls(concepts, ctx, lat if members else None, rng, 1)
+                continue
             if k == 0:
-                ctx.intension(argform(sub_o, rng))
+                ctx.intension(argform(sub_o, rng, ctx=ctx))
             elif k == 1:
-                ctx.extension(argform(sub_p, rng))
+                ctx.extension(argform(sub_p, rng, ctx=ctx))
             elif k == 2 and sub_o:
-                ctx[argform(sub_o, rng, iterable_ok=False)]
+                ctx[argform(sub_o, rng, iterable_ok=False, ctx=ctx)]
             elif k == 3 and sub_p:
-                ctx[argform(sub_p, rng, iterable_ok=False)]
+                ctx[argform(sub_p, rng, iterable_ok=False, ctx=ctx)]
             elif k == 4:
-                ctx.neighbors(argform(sub_o, rng))
+                ctx.neighbors(argform(sub_o, rng, ctx=ctx))
             elif k == 5:
                 str(ctx.relations(include_unary=rng.random() < .5))
             elif k == 6:
@@ -846,7 +962,9 @@ def interference(concepts, ctx, lat, rng, steps=20):
                 a | b, a & b, a.join(b), b.meet(a)
             elif k == 13:
                 ms = [rng.choice(members) for _ in range(rng.randint(0, 4))]
-                lat.join(ms), lat.meet(tuple(ms))
+                if rng.random() < .3:
+                    ms = reentrant_concepts(ms, lat)
+                lat.join(ms), lat.meet(ms if isinstance(ms, Reentrant) else tuple(ms))
             elif k == 14:
                 a, b = rng.choice(members), rng.choice(members)
                 a <= b, a < b, a >= b, a > b, a.incompatible_with(b), a.complement_of(b), \
@@ -856,6 +974,9 @@ def interference(concepts, ctx, lat, rng, steps=20):
                 list(c.upset()), list(c.downset())
             elif k == 16:
                 ms = [rng.choice(members) for _ in range(rng.randint(0, 4))]
+                if rng.random() < .3:
+                    rms = reentrant_concepts(ms, lat)
+                    list(lat.upset_union(rms)), list(lat.downset_union(rms))
                 list(lat.upset_union(ms)), list(lat.downset_union(set(ms)))
             elif k == 17:
                 c = rng.choice(members)
